@@ -16,8 +16,8 @@ import (
 	"context"
 	"encoding/json"
 	"fmt"
-	"os"
 	"math/rand"
+	"os"
 	"reflect"
 	"regexp"
 	"strings"
